@@ -152,4 +152,39 @@ theorem dekker_total_f64 (lib : Libm) (x y : Nat) (sx sy : Bool) (mx my : Nat) (
     (hE_two bx bY) _ _ hq
   exact ⟨h, l, h1, h2, h3, _, _, h4, h5, rfl, by ring⟩
 
+theorem total_kinds2 :
+    kindsOfS add_2sum_fast_f32.nodes [] = some (List.replicate 5 false) ∧ kindsOfS split_veltkamp_f32.nodes [] = some (List.replicate 6 false) := by
+  decide +kernel
+
+/-- **Fast2Sum on bit patterns, unconditional** (float32): finite operand patterns with |y| ≤ |x| ≤ 2^124 -/
+theorem fast2sum_total_f32 (lib : Libm) (x y : Nat) (qx qy : ℚ) (hx : isFiniteBits binary32 x = true) (hy : isFiniteBits binary32 y = true)
+    (vx : toQ binary32 x = some qx) (vy : toQ binary32 y = some qy) (hxy : |qy| ≤ |qx|) (bx : |qx| ≤ 2 ^ (124 : ℤ)) :
+    ∃ s t : Nat, add_2sum_fast_f32.eval lib [x, y] = some [s, t] ∧ isFiniteBits binary32 s = true ∧ isFiniteBits binary32 t = true ∧
+      ∃ qs qt : ℚ, toQ binary32 s = some qs ∧ toQ binary32 t = some qt ∧ qs = rne (qf binary32 (by decide)) (qx + qy) ∧ qs + qt = qx + qy := by
+  have hf : WF binary32 := ⟨by decide, by decide⟩
+  have hq := (fast2sum_generated (qf binary32 hf.hp) (rne (qf binary32 hf.hp)) (isRN_rne _) qx qy (rep_of_finite _ hf hx vx) (rep_of_finite _ hf hy vy) hxy).1
+  obtain ⟨s, t, h1, h2, h3, h4, h5⟩ := total2 add_2sum_fast_f32 hf Lmax_ge4.2.1 _ total_kinds2.1
+    (by intro o ho; have : o = 2 ∨ o = 4 := by simpa [add_2sum_fast_f32] using ho
+        rcases this with rfl | rfl <;> decide)
+    [124, 124] overflow_checks.2.2.2.2.1 lib [x, y] [qx, qy] (insRel2 hx hy vx vy) (hE_two bx (le_trans hxy bx)) _ _ hq
+  exact ⟨s, t, h1, h2, h3, _, _, h4, h5, rfl, by ring⟩
+
+/-- **Veltkamp's splitter on bit patterns, unconditional** (float32): every normal pattern ±m·2^e with |x| ≤ 2^111: the run
+exists, is finite, and value(xh) + value(xl) = x with xh on the grid 2^(e+12) and |xl| ≤ 2^(e+11). -/
+theorem split_total_f32 (lib : Libm) (x : Nat) (s : Bool) (m : Nat) (e : Int) (dx : decode binary32 x = .fin s m e)
+    (nm : 2 ^ 23 ≤ m) (bx : |valQ s m e| ≤ 2 ^ (111 : ℤ)) :
+    ∃ h l : Nat, split_veltkamp_f32.eval lib [x] = some [h, l] ∧ isFiniteBits binary32 h = true ∧ isFiniteBits binary32 l = true ∧
+      ∃ qh ql : ℚ, toQ binary32 h = some qh ∧ toQ binary32 l = some ql ∧ qh + ql = valQ s m e ∧ Mult (e + 12) qh ∧ |ql| ≤ 2 ^ (e + 12) / 2 := by
+  have hf : WF binary32 := ⟨by decide, by decide⟩
+  obtain ⟨b1, b2⟩ := decode_bounds binary32 hf x s m e dx
+  have habs : |(if s then -(m : ℤ) else (m : ℤ))| = (m : ℤ) := by cases s <;> simp
+  obtain ⟨xh, xl, hq, hsum, hM, -, -, hl⟩ := (split_generated (rne (qf binary32 hf.hp)) (if s then -(m : ℤ) else m) e).2.1 (qf binary32 hf.hp) rfl (isRN_rne _)
+    (by rw [habs]; exact_mod_cast nm) (by rw [habs]; exact_mod_cast b1) b2
+  rw [← valQ_int s m e] at hq hsum
+  obtain ⟨h, l, h1, h2, h3, h4, h5⟩ := total2 split_veltkamp_f32 hf Lmax_ge4.2.1 _ total_kinds2.2
+    (by intro o ho; have : o = 4 ∨ o = 5 := by simpa [split_veltkamp_f32] using ho
+        rcases this with rfl | rfl <;> decide)
+    [111] overflow_checks.2.2.2.2.2.2.2.1 lib [x] _ (insRel1 (finite_of_decode _ _ _ _ _ dx) (toQ_fin _ x s m e dx)) (hE_one bx) _ _ hq
+  exact ⟨h, l, h1, h2, h3, xh, xl, h4, h5, hsum, hM, hl⟩
+
 end FAVerif.Props.C10
